@@ -283,6 +283,20 @@ def confirm_in_fresh_process(path):
     return p.returncode == 1 and "REPRODUCED" in p.stdout, p.stdout + p.stderr
 
 
+def cold_run(sim_name, plan):
+    """The run part of a plan executed directly in a fresh interpreter.  The
+    context is canonical: fixed environment (the interpreter copies its
+    environment into objects at start-up, which shifts every later allocation),
+    fixed argv, hash seed 0, address-space randomisation off (set by exec-run)."""
+    env = {"PATH": "/usr/bin:/bin", "PYTHONHASHSEED": "0", "VERIF_REPO": REPO}
+    p = subprocess.run([sys.executable, os.path.join(VERIF, "bin", "labsim"), "exec-run", sim_name],
+                       input=json.dumps(plan, sort_keys=True), capture_output=True, text=True, env=env,
+                       timeout=600, cwd="/")
+    if p.returncode != 0:
+        raise HarnessError("exec-run failed: " + (p.stdout + p.stderr)[-2000:])
+    return json.loads(p.stdout.strip().splitlines()[-1])
+
+
 def cold_reference(sim_name, job):
     """The same reference computation in a cold interpreter (no fork from a
     pristine image): shows fork-from-pristine == fresh process."""
@@ -293,6 +307,38 @@ def cold_reference(sim_name, job):
     if p.returncode != 0:
         raise HarnessError("exec-ref failed: " + (p.stdout + p.stderr)[-2000:])
     return json.loads(p.stdout.strip().splitlines()[-1])
+
+
+def _cold_search(sim, prop, vclass, plan, base_seed, tier, index, max_plans=1500, wall=120):
+    """Execute plans cold (16 at a time) until one shows a violation of the given
+    class.  Returns (plan with cold=True, violation) or (None, None)."""
+    import concurrent.futures as cf
+
+    def attempt(p):
+        p = dict(p)
+        p["cold"] = True
+        try:
+            res = sim.execute(p)
+        except HarnessError:
+            return None
+        v = _violation_matches(res, prop, vclass)
+        return (p, v) if v is not None else None
+
+    t0 = time.monotonic()
+    cands = [plan] + [make_plan(sim, base_seed, i, tier) for i in range(0, max_plans) if i != index]
+    with cf.ThreadPoolExecutor(max_workers=16) as ex:
+        pos = 0
+        while pos < len(cands) and time.monotonic() - t0 < wall:
+            chunk = cands[pos:pos + 32]
+            pos += 32
+            for got in ex.map(attempt, chunk):
+                if got is not None:
+                    p, v = got
+                    v = dict(v)
+                    v["detail"] = dict(v.get("detail") or {}, note="depends on memory-address re-use: reproduces only "
+                                       "when the run executes directly in a fresh interpreter (plan.cold); not minimised")
+                    return p, v
+    return None, None
 
 
 # ------------------------------------------------------------------ known findings
@@ -369,33 +415,41 @@ def check(prop, tier, base_seed, workers=None):
         best = v = path = None
         evals = 0
         ok = False
+        has_cold = sim.NAME in ("engine", "timeline", "scale")
+        cands = []
         first = sim.execute(plan)
         if _violation_matches(first, prop, vclass) is not None:
-            # reproducible in this process: minimise, then confirm in a fresh one
-            best, v, evals = minimise(sim, plan, item["violation"], budget.get("shrink_evals", 400))
-            path = write_replay(sim, prop, best, v, len(plan["ops"]))
+            # reproducible in this process: minimise here
+            try:
+                mbest, mv, evals = minimise(sim, plan, item["violation"], budget.get("shrink_evals", 400))
+                cands.append((mbest, mv))
+            except HarnessError:
+                pass  # flaky in this process: address-dependent, handled below
+        cands.append((plan, item["violation"]))
+        # Confirmation happens in the canonical, exactly repeatable context: a fresh
+        # interpreter with address-space randomisation off that executes the run
+        # directly ("cold").  A violation that is a function of the plan alone
+        # reproduces there as everywhere; one that depends on memory-address re-use
+        # (a cache keyed by id() of a dead object) may not - then further runs of the
+        # batch are searched cold for the same violation class.
+        for cp, cv in cands:
+            p2 = dict(cp)
+            if has_cold:
+                p2["cold"] = True
+            path = write_replay(sim, prop, p2, cv, len(plan["ops"]))
             ok, out = confirm_in_fresh_process(path)
-        if not ok:
-            # The violation was observed in a worker but does not reproduce elsewhere:
-            # it depends on memory-address re-use (e.g. a cache keyed by id() of a dead
-            # object).  Search for a heap layout - a function of one integer recorded in
-            # the replay file - under which a fresh process reproduces it exactly.
-            for cand in ([best] if best is not None else []) + [plan]:
-                for pad in range(0, 64):
-                    p2 = dict(cand)
-                    p2["heap_pad"] = pad
-                    path = write_replay(sim, prop, p2, item["violation"], len(plan["ops"]))
-                    ok, out = confirm_in_fresh_process(path)
-                    if ok:
-                        best, v = p2, dict(item["violation"])
-                        v["detail"] = dict(v.get("detail") or {}, note="allocator-dependent: reproduces in a fresh "
-                                           "process under heap_pad=%d; not minimised further" % pad)
-                        break
-                if ok:
-                    break
+            if ok:
+                best, v = p2, cv
+                break
+        if not ok and has_cold:
+            evals = 0
+            best, v = _cold_search(sim, prop, vclass, plan, base_seed, tier, item["index"])
+            if best is not None:
+                path = write_replay(sim, prop, best, v, len(best["ops"]))
+                ok, out = confirm_in_fresh_process(path)
         if not ok:
             raise HarnessError("violation class=%s of run %d was observed in the batch but could not be reproduced "
-                               "in a fresh process (64 heap layouts tried):\n%s"
+                               "in a fresh process:\n%s"
                                % (vclass, item["index"], json.dumps(item["violation"].get("detail"), sort_keys=True)[:1500]))
         k = match_known(findings, prop, v, best, sim)
         if k is not None:
